@@ -3,7 +3,7 @@
    until they are in, this file carries the full statement as a definition,
    the tie obligations the statement rests on, and the property is decided on
    every run by the correspondence described in DESIGN.md. *)
-From SJ Require Import Model.Base Model.RefTables Spec.Json Spec.EditSpec Model.Driver Model.Tape Model.Iter Model.Walk Model.Edit Model.WF Tie.GoTablesTie.
+From SJ Require Import Model.Base Model.RefTables Spec.Json Spec.EditSpec Model.Driver Model.Tape Model.Iter Model.Walk Model.Edit Model.WF Proofs.AcceptProofs Tie.GoTablesTie.
 Open Scope N_scope.
 
 Definition pj_of (p : parsed) : pjson := {| pj_tape := p_tape p; pj_strings := p_strings p; pj_msg := p_msg p |}.
@@ -15,6 +15,16 @@ Definition C02_full : Prop :=
     spec_parse bs = SOk d -> parse_model copy bs = Ok p ->
     denote (p_msg p) (p_strings p) (p_tape p) = Some [d] /\
     walk_doc (pj_of p) = Ok [d].
+
+(* PROVED: for every accepted valid document the tape's denotation is exactly
+   the specification's document: same nesting, element order, member order with
+   duplicate keys, decoded strings, number types, values and flags — for any
+   size, depth and white-space layout, in both string modes. *)
+Theorem C02_denote_eq_spec : forall (copy : bool) (bs : bytes) (d : doc),
+  N.of_nat (length bs) < 2 ^ 55 -> spec_parse bs = SOk d ->
+  exists p, parse_model copy bs = Ok p /\ denote (p_msg p) (p_strings p) (p_tape p) = Some [d].
+Proof. exact parse_accepts_valid. Qed.
+Print Assumptions C02_denote_eq_spec.
 
 Theorem C02_tie_tags : tab_diff gen.Tables.gen_TagToType TagToType_ref 256 = [].
 Proof. exact tie_TagToType. Qed.
